@@ -441,7 +441,7 @@ def gen_values(r, dtype, n, guard):
         pool = [90.0, 45.0, 30.0, 1.0, 0.5, 180.0]
     else:
         pool = [1.0, 2.0, 0.5, 10.0, 3.5, 273.15, 100.0, 0.25]
-    if dtype.startswith("int"):
+    if dtype.startswith("int") or dtype == ">i4":
         vals = [int(r.choice([1, 2, 3, 10, 90, 45])) for _ in range(n)]
     elif dtype.startswith("complex"):
         vals = [[r.choice(pool), r.choice(pool)] for _ in range(n)]
@@ -462,9 +462,13 @@ def gen_run(r, cfg):
     if guard.startswith("custom") and not all(s in have for s in CUSTOM_SYMS if s in unit):
         unit, dim, guard = "code_length", "length", "custom"
     kind = wchoice(r, [("quantity", 4), ("array", 4), ("unit", 1.5)])
-    dtype = wchoice(r, [("float64", 6), ("float32", 1), ("int64", 1.5), ("complex128", 0.7)])
+    dtype = wchoice(r, [("float64", 6), ("float32", 1), ("int64", 1.5), ("complex128", 0.7), (">f8", 0.5), (">i4", 0.3),
+                        ("int8", 0.3), ("complex64", 0.3)])
     n = r.choice([2, 3, 4])
     route = r.choice(cfg["routes"])
+    if dtype.startswith(">") and route not in ("copy", "method_copy", "deepcopy", "deepcopy_nested", "unitcopy", "unitcopy_deep"):
+        # NumPy's own pickle hands back native byte order; the text routes carry no dtype at all
+        dtype = "float64" if dtype == ">f8" else "int64"
     build = {"k": "build", "kind": kind, "dtype": dtype, "unit": unit, "dim": dim, "guard": guard,
              "v": gen_values(r, dtype, n, guard) if kind == "array" else gen_values(r, dtype, 1, guard)[0],
              "name": r.choice([None, "field"])}
